@@ -621,13 +621,20 @@ Proof.
 Qed.
 
 (* the checkpointed cursor travels with the shard *)
+Theorem assignment_carries_cursor_with : forall f n cs shards r i c,
+  In (r, i, c) (assign_out_with f n cs shards) -> c = cursor_of cs i /\ r < n /\ exists s, In s shards /\ sid s = i /\ f s = r.
+Proof.
+  intros f n cs shards r i c H. unfold assign_out_with in H. apply in_flat_map in H. destruct H as [r' [Hr H]].
+  apply in_map_iff in H. destruct H as [s [E Hs]]. inversion E; subst. apply filter_In in Hs. destruct Hs as [Hs Hf].
+  split; [reflexivity|]. split; [|exists s; split; [exact Hs|split; [reflexivity|apply N.eqb_eq; exact Hf]]].
+  apply in_iota_from in Hr. lia.
+Qed.
+
 Theorem assignment_carries_cursor : forall n cs shards r i c,
   In (r, i, c) (assign_out n cs shards) -> c = cursor_of cs i /\ r < n /\ exists s, In s shards /\ sid s = i.
 Proof.
-  intros n cs shards r i c H. unfold assign_out in H. apply in_flat_map in H. destruct H as [r' [Hr H]].
-  apply in_map_iff in H. destruct H as [s [E Hs]]. inversion E; subst. apply filter_In in Hs. destruct Hs as [Hs _].
-  split; [reflexivity|]. split; [|exists s; split; [exact Hs|reflexivity]].
-  apply in_iota_from in Hr. lia.
+  intros n cs shards r i c H. unfold assign_out in H. apply assignment_carries_cursor_with in H.
+  destruct H as [H1 [H2 [s [H3 [H4 _]]]]]. split; [exact H1|]. split; [exact H2|]. exists s. split; assumption.
 Qed.
 
 (* D24b continued: when the lost shards 3 and 4 are later merged into 7, the restored splitter hands 7 out
